@@ -75,8 +75,9 @@ ASSUMPTIONS = ["tolerance 1e-6 p.u. / 1e-6 degree (doc/gridequivalent/gridequiva
                "at most one ext_grid / slack gen per bus ('assert ... only one slack at individual bus' in ward_generation.py)",
                "no dclines, no unsupplied islands, no asymmetric_load/sgen, no controllers, no cost functions, return_internal=True, "
                "ward_type='ward_injection', adapt_va_degree=False (defaults)",
-               "LoadflowNotConverged inside get_equivalent is a legal outcome (skipped); non-convergence of the power flow on the "
-               "returned equivalent is a failure",
+               "LoadflowNotConverged inside get_equivalent is a legal outcome (skipped) only for cases with a known shape (facts()) or with "
+               "sn_mva > 10 x MVA scale of the lowest voltage level (ill-conditioned p.u. system); "
+               "otherwise it is a failure, like non-convergence (dc and flat start) of the power flow on the returned equivalent",
                "the power flow on the equivalent starts from the DC initialisation (runpp default with calculate_voltage_angles), "
                "not from the results stored in the returned net; if that solution differs, a flat start that reproduces the "
                "original operating point is accepted (label other-solution-from-dc-init): the property does not fix the start",
@@ -500,7 +501,13 @@ def check(case):
     if raised is not None:
         kind, what = pf_outcome(raised)
         if kind == "skip" and what == "not-converged":
-            res.skipped = "equivalent-not-converged"
+            # documented outcome - but a converged, plausible network without any known shape must be reducible: a regression
+            # of the aggregated-gen fix (vm_pu summed) shows up as exactly this non-convergence
+            # (seen legitimately with sn_mva = 100 and 3-kW gens at 0.4 kV: REI impedances of 3e4 p.u., passes with sn_mva = 1)
+            if facts(net, reg, case) or sn > 10.0 * min(netgen.LEVELS[v]["s"] for v in set(net.bus.vn_kv.values)):
+                res.skipped = "equivalent-not-converged"
+            else:
+                res.fail("inner-pf-not-converged/%s/other" % eq_type, error=repr(raised)[:300], regions=_short(reg), kw=case["kw"])
         else:
             cause = _cause(net, reg, case, raised)
             res.fail("raised/%s/%s/%s" % (eq_type, exc_sig(raised), cause),
